@@ -79,7 +79,8 @@ def handleSigV4 (op : String) (j : Json) : Except String Json := do
         ("key_chain_standard", Json.bool Gen.s3KeyChainStandard),
         ("clock_standard", Json.bool Gen.s3ClockStandard),
         ("stream_digest_shape", Json.bool Gen.s3StreamDigestShape),
-        ("upload_shape", Json.bool Gen.s3UploadShape)])])
+        ("upload_shape", Json.bool Gen.s3UploadShape),
+        ("list_shape", Json.bool Gen.s3ListShape)])])
   | "sigv4.encode" =>
     let s ← getBytes j "s"
     let safe ← getBytes j "safe"
